@@ -143,7 +143,7 @@ type StrPart struct {
 
 type Str struct{ Parts []StrPart }
 
-func S(lit string) Str { return Str{Parts: []StrPart{{Lit: lit}}} }
+func S(lit string) Str  { return Str{Parts: []StrPart{{Lit: lit}}} }
 func SSym(n string) Str { return Str{Parts: []StrPart{{Sym: n}}} }
 func (s Str) norm() Str {
 	var out []StrPart
